@@ -108,6 +108,21 @@ def build():
             labels = ['mask', 'pre'] if f == 'open' else ['item']
             u.fn(X, ['mod bitset', 'impl%s ParJoin for %s' % (g, ty), 'fn ' + f], props='C07', group=gname, key='%s::%s' % (gname, f), rules=N9U,
                  hint_obligations=[E('trait.par_%s.%s' % (f, l), 'inherited postcondition of ParJoin::%s (%s) for the bit-set member %s' % (f, l, ty), 'C07') for l in labels])
+    # ---- resource-handle forwarding member (immutable_resource_join!): `&'a Fetch<'b, T>`; see unit join
+    FWD = """    type Type = <&'a T as ParJoin>::Type;
+    type Value = <&'a T as ParJoin>::Value;
+    type Mask = <&'a T as ParJoin>::Mask;
+    spec fn pmask(&self) -> Set<u32> { <&'a T as ParJoin>::pmask(&&***self) }
+    spec fn popen_pre(&self) -> bool { <&'a T as ParJoin>::popen_pre(&&***self) }
+    spec fn pget_pre(v: &Self::Value, id: Index) -> bool { <&'a T as ParJoin>::pget_pre(v, id) }
+    spec fn pget_post(v: &Self::Value, id: Index, r: &Self::Type) -> bool { <&'a T as ParJoin>::pget_post(v, id, r) }
+"""
+    u.groups['pj_fetch'] = dict(header="unsafe impl<'a, 'b, T> ParJoin for &'a Fetch<'b, T> where &'a T: ParJoin,", pre=FWD, private=False)
+    for f in ('open', 'get', 'is_unconstrained'):
+        labels = dict(open=['mask', 'pre'], get=['item'], is_unconstrained=[])[f]
+        u.fn(X, ['mod join', "impl<'a, 'b, T> ParJoin for &'a Fetch<'b, T>", 'fn ' + f], props='C07', group='pj_fetch', key='pj_fetch::%s' % f,
+             rules=[('N10', r'self\.deref\(\)', '(&**self)')],
+             hint_obligations=[E('trait.par_%s.%s' % (f, l), 'inherited postcondition of ParJoin::%s (%s) for the forwarding member &Fetch<T>' % (f, l), 'C07') for l in labels])
     LET = 'ABCD'
     def tuple_pre(n):
         ls = LET[:n]
